@@ -139,7 +139,7 @@ struct FlowTable {
         } else if (op == W_RESET) m.clear();
         if (mapping_before != 0 && mapping_after == 0) m.clear(); // the flow clears the table when the mapping session ends
         traffic_s = now_s; armed = true;                           // every frame re-arms the inactivity deadline
-        tick(now_s);                                               // the tick that follows every frame
+        tick(std::max(d.t, d.t_end) / 1000);                       // the tick that follows every frame reads the clock after the pauses the core made while handling it
     }
     bool known_other_seq(const Mac &src, uint16_t gen, uint16_t xid) const { auto it = m.find({src, gen}); return it != m.end() && it->second.seq != xid; }
     int incomplete_certain() const { int n = 0; for (auto &kv : m) if (kv.second.complete == 0) n++; return n; }
@@ -713,11 +713,12 @@ struct MonC10 : Monitor {
             size_t declared = be16(d.buf + 32), fits = d.len >= 34 ? (d.len - 34) / 14 : 0;
             size_t sent = 0;
             for (auto &tx : d.txs) if (tx.channel == 0 && !tx.refused && tx.data.size() >= 32 && (tx.data[OFF_OP] == W_PROBE || tx.data[OFF_OP] == W_TRAIN)) sent++;
-            bool kinds_ok = true;
-            for (size_t i = 0; i < declared && i < fits; i++) if (d.buf[34 + 14 * i] > 1) kinds_ok = false;
+            // descriptors of a kind that is neither Probe nor Train order nothing; the Probe/Train orders next to them in the same list are orders all the same
+            size_t orders = 0;
+            for (size_t i = 0; i < declared && i < fits; i++) if (d.buf[34 + 14 * i] <= 1) orders++;
             bool by_mapper = arb.m.count(d.node) && arb.m[d.node].certainly_active(mac_at(d.buf + OFF_RSRC));
-            if ((sent > 0 || by_mapper) && declared >= 1 && declared <= fits && kinds_ok && sent < declared && !(node_getfail(w, d.node) & (G_MTU | G_MAC)))
-                w.violate("C10", "peer-probe-not-reported", fmt("an Emit with %zu descriptors was executed but only %zu frame(s) were put on the wire: the rest can never be observed by the peer", declared, sent));
+            if ((sent > 0 || by_mapper) && declared >= 1 && declared <= fits && sent < orders && !(node_getfail(w, d.node) & (G_MTU | G_MAC)))
+                w.violate("C10", "peer-probe-not-reported", fmt("an Emit with %zu descriptors (%zu of them Probe/Train orders) was executed but only %zu frame(s) were put on the wire: the rest can never be observed by the peer", declared, orders, sent));
         }
         else if (op == W_QUERY) {
             if (d.internal_fault) { expect[d.node].clear(); return; }
